@@ -13,6 +13,7 @@ mod ops;
 mod util;
 
 mod drive_code;
+mod oneshot;
 mod replay;
 
 use std::collections::HashMap;
@@ -68,6 +69,7 @@ fn main() {
     util::quiet_panics();
     let code = match args.cmd.as_str() {
         "code" => drive_code::main(&args),
+        "oneshot" => oneshot::main(&args),
         "replay" => replay::main(&args),
         "replay-script" => replay::main_script(&args),
         other => {
